@@ -309,6 +309,14 @@ def _twin_history(ctx, spec, meta, channel, plain, it, ops, rng, n_ops):
                 op = ['set', a, v]
             elif r < 0.5:
                 op = ['eval', [rng.choice(addresses) for _ in range(2)]]
+            elif r < 0.6:
+                # a range address: a CSE target, or a rectangle of the first sheet
+                if spec['arrays'] and rng.random() < 0.5:
+                    sh, ref, _ = spec['arrays'][0]
+                    op = ['eval', f'{sh}!{ref}'] if ':' in ref else ['eval', rng.choice(addresses)]
+                else:
+                    c1, r1 = rng.randint(1, 4), rng.randint(1, 5)
+                    op = ['eval', f'{spec["sheets"][0][0]}!{wb.coord(c1, r1)}:{wb.coord(c1 + rng.randint(0, 1), r1 + 1)}']
             else:
                 op = ['eval', rng.choice(addresses)]
         step += 1
